@@ -112,6 +112,25 @@ pub(super) fn graph_json(
                 }
             }
         }
+        // `match` nodes pass on whatever the matched `Result` holds onto (same as `captured_nodes`).
+        let is_match = match node {
+            CallGraphNode::MatchBranching => true,
+            CallGraphNode::Compute { component_id, .. } => matches!(
+                component_db
+                    .hydrated_component(*component_id, computation_db)
+                    .computation(),
+                Computation::MatchResult(_)
+            ),
+            CallGraphNode::InputParameter { .. } => false,
+        };
+        if is_match {
+            for e in call_graph.edges_directed(node_index, Direction::Incoming) {
+                if let CallGraphEdgeMetadata::HappensBefore = e.weight() {
+                    continue;
+                }
+                tied.push(e.source().index());
+            }
+        }
         nodes.push(format!(
             "{{\"i\":{},\"kind\":\"{}\",\"label\":\"{}\",\"out\":\"{}\",\"copy\":{},\"ref\":{},\"cloneable\":{},\"tied\":{:?},\"direct\":{:?}}}",
             node_index.index(),
